@@ -125,6 +125,13 @@ B2 = ["grad", ["app2", "mul", ["var", 0], ["deriv", ["app2", "mul", ["var", 0], 
       ["const", 3]]
 
 
+# other threads whose differentiation FAILS while A's traces are open (escaping, and caught inside B)
+B3 = ["grad", ["app2", "mul", ["var", 0], ["fail"]], ["const", 1]]
+B4 = ["grad", ["app2", "mul", ["var", 0],
+               ["try", ["grad", ["app2", "mul", ["fail"], ["var", 0]], ["const", 1]],
+                ["deriv", ["app2", "mul", ["var", 0], ["var", 1]], ["const", 2]]]], ["const", 3]]
+
+
 def plans(nA, nB, rng, limit):
     """all (or a sample of) ways to place B's nB steps at A's hook indices 0..nA, in order"""
     allp = list(itertools.combinations_with_replacement(range(nA + 1), nB))
@@ -157,7 +164,7 @@ def main():
         if sres.get("inexact"):
             out["skipped"] += 1
             continue
-        for pb in (B1, B2):
+        for pb in (B1, B2, B3, B4):
             sb, nB = solo(pb)
             for plan in plans(nA, nB, rng, cfg["per_prog"]):
                 try:
